@@ -31,7 +31,7 @@ func init() {
 			if tier == "thorough" {
 				return 1400
 			}
-			return 140
+			return 200
 		},
 		Run:         runC02,
 		CaseTimeout: 10 * time.Minute,
@@ -208,7 +208,7 @@ func crashCaseOpts(c *core.Ctx, res *core.Result, only func(string) bool, tweak 
 		cfg.SyncBytes = []int64{1, 4096, 1 << 20}[r.Intn(3)]
 	}
 	o := kv.GenOpts{NOps: r.Range(25, 80), NKeys: r.Range(3, 20), BigValues: r.Chance(25), Maintenance: r.Range(2, 8),
-		CompactRange: r.Chance(20), Tx: true, Batch: true}
+		CompactRange: r.Chance(20), Tx: true, Batch: true, BigTxPct: 15, TxWeight: 14}
 	if tweak != nil {
 		tweak(&o)
 	}
